@@ -9,3 +9,10 @@ def run(chk, args):
     if args.replay:
         return brokerlib.replay(chk, "C04", args.replay)
     brokerlib.pipeline(chk, "C04", chk.tier, chk.seed)
+
+
+MANIFEST = {
+    "technique": 'TLA+ spec Broker: TLC deadlock freedom + NoGhost + leads-to completion with explicit timer deadlines; replays place every timer expiry next to the racing lock acquisition via gates; hangs observed on the real code under the fake clock; /debug, gauge and fresh polls checked at quiescence by the trace spec',
+    "text": "A hang is a TLC deadlock of the model (some handler blocked, no timer pending); on the real code every scenario is drained 25 fake seconds past its last step and any request that has not returned is a violation, as is a leftover registration (/debug count, snowflake_available_proxies gauge, heaps, fresh clients of both pools must be told 'no proxies'). The pinned code violated this in three ways (D1-D3), found by this check and repaired.",
+    "note": "Bounded as C02; 'bounded time' is judged on the fake clock (10 s + 10 s + 5 s slack); a panic in a broker goroutine during replay is reported as a crash.",
+}
